@@ -78,9 +78,9 @@ def ParCrit.readLb (c : ParCrit S) : Int := c.base.bestLb
 /-- `maybe_update_best` -/
 def ParCrit.updateBest (c : ParCrit S) (o : DDOut S) : ParCrit S := { c with base := c.base.updateBest o }
 
-/-- `enqueue_cutset(ub)` -/
-def ParCrit.enqueue (dedup : Bool) (c : ParCrit S) (nodeUb : Int) (cs : List (SubP S)) : ParCrit S :=
-  { c with base := c.base.enqueue dedup nodeUb cs }
+/-- `enqueue_cutset()` (no cap since the repair of D14: the same `SeqSt.enqueue` as the sequential solver) -/
+def ParCrit.enqueue (dedup : Bool) (c : ParCrit S) (cs : List (SubP S)) : ParCrit S :=
+  { c with base := c.base.enqueue dedup cs }
 
 /-- `notify_node_finished(thread_id, depth)`; `none` = panic (`ongoing` underflow / index out of range) -/
 def ParCrit.notifyFinished (c : ParCrit S) (i : Nat) (depth : Nat) : Option (ParCrit S) :=
